@@ -187,6 +187,56 @@ def check(prog, run):
                             seen.add(nxt)
                             stack.append((nxt, path + [nxt]))
 
+    # ---- W1 wrapper structure preserved
+    r = run.rule("W1", "every function that maps (possibly wrapped) types to types rebuilds wrappers structurally: "
+                       "ListType -> ListType(f(inner)), NonNullType -> NonNullType(f(inner)); a peel-and-rewrap loop must "
+                       "re-apply the collected wrappers innermost-first (reversed)", 4)
+    sites = [(b.find_method("build_type"), "build"), (b.find_method("extend_type"), "extend"),
+             (prog.get_func("py_gql.schema.fix_type_references", "_HealSchemaVisitor._healed"), "heal"),
+             (prog.get_func("py_gql.schema.schema", "Schema.get_type_from_literal"), "resolve literal")]
+    for f, label in sites:
+        run.looked_at(f)
+        param = f.params[1]
+        structural = {}
+        for n in own_nodes(f.node):
+            if isinstance(n, ast.If):
+                for names, _ in shapes.class_tests(n.test, param):
+                    for nm in names:
+                        if nm in ("ListType", "NonNullType"):
+                            # the branch must construct the same wrapper around a recursive call on <param>.type
+                            txt = " ".join(ast.unparse(ast.Module(body=n.body, type_ignores=[])).split())
+                            rec = "%s(" % f.name
+                            ok = ("%s(" % nm) in txt and rec in txt and (".type" in txt)
+                            other = "NonNullType(" if nm == "ListType" else "ListType("
+                            swapped = other in txt and ("%s(" % nm) not in txt
+                            structural[nm] = (ok, swapped)
+        peel = [n for n in own_nodes(f.node) if isinstance(n, ast.While) and "ListType" in ast.unparse(n.test) and "NonNullType" in ast.unparse(n.test)]
+        r.instance("%s (%s): structural branches %s, peel loops %d" % (f.qualname, label, {k: v[0] for k, v in structural.items()}, len(peel)))
+        if peel:
+            # wrappers collected while peeling (outermost first); the re-application loop must run in reverse
+            collected = None
+            for n in ast.walk(peel[0]):
+                if isinstance(n, ast.Call) and isinstance(n.func, ast.Attribute) and n.func.attr in ("append", "insert"):
+                    collected = (ast.unparse(n.func.value), n.func.attr, n)
+            if collected is None:
+                raise AnalysisError("C11.W1: %s peels wrappers in an unrecognised way" % f.qualname)
+            name, how, _ = collected
+            front_insert = how == "insert" and ast.unparse(collected[2].args[0]) == "0"
+            loops = [n for n in own_nodes(f.node) if isinstance(n, ast.For) and name in ast.unparse(n.iter)]
+            for lp in loops:
+                it = ast.unparse(lp.iter)
+                rev = it.startswith("reversed(") or it.endswith("[::-1]")
+                if rev == front_insert:
+                    run.report(r, "%s:%s:wrappers-reapplied-in-peel-order" % (f.module.name, f.qualname), f.where(lp),
+                               "%s collects the wrappers outermost-first and re-applies them with `for ... in %s` in the same order: "
+                               "the outermost wrapper ends up innermost ([T]! becomes [T!], [T!] becomes [T]!)" % (f.qualname, it))
+        else:
+            for nm in ("ListType", "NonNullType"):
+                ok, swapped = structural.get(nm, (False, False))
+                if not ok:
+                    run.report(r, "%s:%s:wrapper(%s)" % (f.module.name, f.qualname, nm), f.where(),
+                               "%s does not rebuild %s as %s(%s(<inner>))%s" % (f.qualname, nm, nm, f.name, " (it builds the other wrapper)" if swapped else ""))
+
     # ---- T1 registry conservation
     rt = run.rule("T1", T1_TEXT, 2)
     registry_conservation(prog, run, rt)
